@@ -407,3 +407,31 @@ func cyclic(v interface{}, path map[uintptr]bool) bool {
 	}
 	return false
 }
+
+// Intify turns whole float64 numbers into int64 (every third into int).
+func Intify(v interface{}, n *int) interface{} {
+	switch vv := v.(type) {
+	case float64:
+		if vv == float64(int64(vv)) && vv < 1e15 && vv > -1e15 {
+			*n++
+			if *n%3 == 0 {
+				return int(vv)
+			}
+			return int64(vv)
+		}
+		return vv
+	case map[string]interface{}:
+		m := make(map[string]interface{}, len(vv))
+		for _, k := range SortedKeys(vv) {
+			m[k] = Intify(vv[k], n)
+		}
+		return m
+	case []interface{}:
+		a := make([]interface{}, len(vv))
+		for i, x := range vv {
+			a[i] = Intify(x, n)
+		}
+		return a
+	}
+	return v
+}
